@@ -99,6 +99,30 @@ func Read() (*Config, error) {
 	return &config, nil
 }
 
+// WriteFileAtomically writes the file under a temporary (hidden) name in the same directory and renames it into place,
+// so that an interrupted write never leaves a truncated file behind.
+func WriteFileAtomically(path string, data []byte, perm os.FileMode) error {
+	f, err := os.CreateTemp(filepath.Dir(path), "."+filepath.Base(path)+".tmp-")
+	if err != nil {
+		return err
+	}
+	defer os.Remove(f.Name())
+	if _, err := f.Write(data); err != nil {
+		f.Close()
+		return err
+	}
+	if err := f.Close(); err != nil {
+		return err
+	}
+	if err := os.Chmod(f.Name(), perm); err != nil {
+		return err
+	}
+	if err := os.Rename(f.Name(), path); err != nil {
+		return err
+	}
+	return nil
+}
+
 type YamlUnmarshallableVersionConstraint semver.Constraints
 
 func (constraint *YamlUnmarshallableVersionConstraint) UnmarshalText(text []byte) error {
